@@ -467,6 +467,7 @@ func cmdCheck(args []string) int {
 		assume = append(assume,
 			"machine integers are treated as mathematical integers (no overflow), floats as reals",
 			"termination is not verified (partial correctness)",
+			"heap well-formedness: every cell of a struct-field array, also at references not allocated yet, is assumed to hold references below the allocation bound of the assumption point (restricted to allocated references in functions marked `opt wf=allocated`); a contradiction from this assumption is reported by the reachability covers of returns and loop back edges",
 			"goroutine interleavings are modelled only at lock acquisition (protected fields havocked, lock invariant assumed)",
 			"panics inside external callees are invisible",
 			"vacuity covers (cover/pre) are checked without the global well-formedness/view axioms")
